@@ -53,9 +53,17 @@ def variants(props: list[str], kinds: set[str]) -> list[dict]:
     if 'seed' in kinds:
         for name in sorted(os.listdir(os.path.join(V, 'seeded'))):
             p = os.path.join(V, 'seeded', name, 'patch.diff')
-            if os.path.isfile(p) and name.split('_')[0] in props:
-                tag = name.split('_', 1)[1]
-                out.append({'prop': name.split('_')[0], 'name': 'seed:' + name, 'kind': 'twin' if tag.startswith('N') else 'mutant', 'patch': p})
+            if not os.path.isfile(p):
+                continue
+            tag = name.split('_', 1)[1]
+            own = name.split('_')[0]
+            if tag.startswith('N'):
+                # a behaviour-preserving change must leave EVERY check silent, not only the one of its own property
+                for q in props:
+                    if q == own or 'cross' in kinds:
+                        out.append({'prop': q, 'name': 'seed:' + name, 'kind': 'twin', 'patch': p})
+            elif own in props:
+                out.append({'prop': own, 'name': 'seed:' + name, 'kind': 'mutant', 'patch': p})
     if 'mutant' in kinds or 'twin' in kinds:
         from selftest.variants import VARIANTS
 
@@ -146,7 +154,7 @@ def run_one(v: dict) -> dict:
 
 def main(argv: list[str]) -> int:
     jobs = 14
-    kinds = {'mutant', 'twin', 'seed', 'auto'}
+    kinds = {'mutant', 'twin', 'seed', 'auto', 'cross'}
     props = []
     it = iter(argv)
     for a in it:
@@ -183,7 +191,7 @@ def main(argv: list[str]) -> int:
             else:
                 t['alarmed'].append(r['name'] + ('(refused)' if r['status'] == 'refused' else ''))
     head = subprocess.run(['git', '-C', '/repo', 'rev-parse', '--short', 'HEAD'], capture_output=True, text=True).stdout.strip()
-    full = set(props) == set(PROPS) and kinds == {'mutant', 'twin', 'seed', 'auto'}
+    full = set(props) == set(PROPS) and kinds >= {'mutant', 'twin', 'seed', 'auto'}
     if full:
         json.dump({'repo_head': head, 'wall_s': round(time.time() - t0, 1), 'tally': tally, 'rows': rows}, open(os.path.join(V, 'selftest', 'RESULT.json'), 'w'), indent=1)
     bad = [r for r in rows if r['status'] in ('survived', 'alarmed', 'refused', 'error')]
